@@ -117,6 +117,13 @@ def gen_case(rng, big=False):
         # two overlapping jumps of different atoms that touch the critical site pair
         rows[0] = [0, pair[0], int(rng.choice(others)), 3, 5]
         rows[1] = [1, int(rng.choice(others)), pair[1], 4, 6]
+        # rows are identified by their content in the oracle: keep them distinct
+        seen, uniq = set(), []
+        for r in rows:
+            if tuple(r) not in seen:
+                seen.add(tuple(r))
+                uniq.append(r)
+        rows = uniq
     return {'lattice_name': name, 'lattice': lat.tolist(), 'sites': site_coords.tolist(), 'rows': rows, 'ms': ms, 'md': md}
 
 
